@@ -307,6 +307,12 @@ Theorem C14_resolve_pkh_from_sig : forall pkh_of a h k s,
 Proof. exact resolve_pkh_from_sig. Qed.
 Print Assumptions C14_resolve_pkh_from_sig.
 
+Theorem C14_resolve_pkh_tap_from_sig : forall pkh_of xonly_of a h kl s,
+  lookup kl (i_tapsigs a) = Some s -> pkh_of (xonly_of kl) = h ->
+  exists k', resolve_pkh_tap pkh_of xonly_of a h = Some k' /\ pkh_of k' = h.
+Proof. exact resolve_pkh_tap_from_sig. Qed.
+Print Assumptions C14_resolve_pkh_tap_from_sig.
+
 Theorem C14_resolve_pkh_deriv_irrelevant : forall pkh_of,
   (forall k1 k2, pkh_of k1 = pkh_of k2 -> k1 = k2) ->
   forall a h k s m, lookup k (i_psigs a) = Some s -> pkh_of k = h ->
